@@ -287,10 +287,14 @@ def rule_rid_pairs(chk, fb):
             gx = _norm_guards(e)
             gr = _norm_guards(r)
             guard_ok = gx == gr
-            loop_ok = bool(e["loops"]) == bool(r["loops"])
+            # both passes walk the SAME collection accessor (two differently ordered views of the same items do not pair)
+            def _src(ev):
+                names = frozenset(x for lp in ev["loops"] for x in lp)
+                return frozenset() if any(str(x).startswith("param:") for x in names) else names  # a list handed in by the caller: not comparable here
+            loop_ok = bool(e["loops"]) == bool(r["loops"]) and (not e["loops"] or not _src(e) or not _src(r) or _src(e) == _src(r))
             ok = kind_ok and guard_ok and loop_ok and followed and rf
             chk.ob(rc, "%s:%s#%d" % (short, e["label"], i), ok, where="%s:%s" % (fb.hir[xml_fn]["file"], e["ln"]),
-                   detail="element <%s> (guards %s, loop %s) <-> relationship #%d of type …/%s (guards %s, loop %s); increment follows: %s/%s" % (e["label"], sorted(gx), bool(e["loops"]), i + 1, str(rtype).rsplit("/", 1)[-1], sorted(gr), bool(r["loops"]), followed, rf))
+                   detail="element <%s> (guards %s, loop over %s) <-> relationship #%d of type …/%s (guards %s, loop over %s); increment follows: %s/%s" % (e["label"], sorted(gx), sorted(_src(e)) or bool(e["loops"]), i + 1, str(rtype).rsplit("/", 1)[-1], sorted(gr), sorted(_src(r)) or bool(r["loops"]), followed, rf))
         # deterministic order of id-consuming loops
         for fn, seq in ((xml_fn, sx), (rels_fn, sr)):
             h = fb.hir[fn]
@@ -678,10 +682,79 @@ def rule_fresh_names(chk, fb, rid="C02.l"):
 
 
 
+def rule_quote_inverse(chk, fb, rid="C02.j.inv"):
+    """What the writer doubles the reader has to halve: the address text of a defined name is written with every
+    apostrophe of the sheet name doubled, so the function that turns such a text back into an Address must undo it."""
+    from mirq import Flow
+
+    r = chk.rule(
+        rid,
+        "apostrophe doubling has an inverse: where a defined name's address text is turned into an Address, the text first passes through replace(\"''\", \"'\") (the writer's replace(\"'\", \"''\") being present)",
+        floor=1,
+    )
+    writer_doubles = False
+    for d, b in fb.mir.items():
+        if b.get("self_ty", "").endswith("::Address"):
+            fl = Flow(fb, b)
+            for _, t in fl.calls(lambda t: t.get("fn", "").endswith("str>::replace")):
+                if len(t["args"]) == 3 and t["args"][1].get("s") == "'" and ("const", "''") in fl.atoms(t["args"][2]):
+                    writer_doubles = True
+    n = 0
+    for d, b in sorted(fb.mir.items()):
+        if not b.get("self_ty", "").endswith("::DefinedName"):
+            continue
+        fl = Flow(fb, b)
+        for bi, t in fl.calls(lambda t: t.get("fn", "").endswith("Address::set_address")):
+            at = fl.atoms(t["args"][1]) if len(t["args"]) > 1 else set()
+            undone = False
+            for a in at:
+                if a[0] == "call" and a[1].endswith("str>::replace"):
+                    rt = b["blocks"][a[2]]["t"]
+                    if len(rt["args"]) == 3 and (rt["args"][1].get("s") == "''" or ("const", "''") in fl.atoms(rt["args"][1])) and ("const", "'") in fl.atoms(rt["args"][2]):
+                        undone = True
+            chk.touch(d)
+            chk.ob(r, "%s#%d" % (d.split("::", 2)[-1], n), undone or not writer_doubles, where="%s:%s" % (b["file"], t["ln"]),
+                   detail="the writer doubles apostrophes: %s; this reader halves them before parsing: %s" % (writer_doubles, undone))
+            n += 1
+
+
+def rule_unordered_once(chk, fb, rid="C02.d.once"):
+    """A list built by iterating a HashSet / HashMap has a different order every time it is built. A part writer that
+    builds such a list twice (once to write it, once to look positions up in it) pairs ids with the wrong entries."""
+    r = chk.rule(
+        rid,
+        "order-unstable lists are built once per part: a function whose result is collected from HashSet/HashMap iteration is called at most once in a part writer and the private helpers of its module",
+        floor=1,
+    )
+    U = set()
+    for d, b in fb.mir.items():
+        if b["kind"] not in ("Fn", "AssocFn"):
+            continue
+        rt = fb.ty(b["locals"][0]["t"])
+        if not ("Vec<" in rt or "ThinVec<" in rt):
+            continue
+        at = Flow(fb, b).atoms(0)
+        if any(a[0] == "call" and any(x in a[1] for x in ("HashSet", "HashMap", "hash_set", "hash_map")) and a[1].split("::")[-1] in ("into_iter", "iter", "keys", "values", "drain", "into_keys", "into_values") for a in at):
+            U.add(d)
+    for w, wb in sorted(fb.mir.items()):
+        if not (w.startswith("writer::") and w.endswith("::write") and wb["kind"] == "Fn"):
+            continue
+        mod = w.rsplit("::", 1)[0]
+        group = [w] + sorted(x for x in fb.reachable_from([w]) if x in fb.mir and x != w and x.rsplit("::", 1)[0].split("::{closure")[0] == mod and fb.mir[x].get("vis") != "pub")
+        for u in sorted(U):
+            sites = [(g, t["ln"]) for g in group for _, t in fb.calls_in(fb.mir[g]) if t.get("fn") == u]
+            if not sites:
+                continue
+            chk.touch(w, u)
+            chk.ob(r, "%s:%s" % ("::".join(w.split("::")[-2:]), u.split("::")[-1]), len(sites) <= 1, where="%s:%s" % (fb.mir[sites[0][0]]["file"], sites[0][1]),
+                   detail="%s (collected from a hash container) is built %d time(s) while writing this part%s" % (u.split("::")[-1], len(sites), "" if len(sites) <= 1 else ": positions looked up in one copy do not match the order of the other"))
+
+
 def run(chk, fb, tier):
     rule_content_types(chk, fb)
     rule_targets(chk, fb)
     rule_rid_pairs(chk, fb)
+    rule_unordered_once(chk, fb)
     rule_order(chk, fb)
     rule_rows(chk, fb)
     channels.rule_attr_escape(chk, fb, "C02.g")
@@ -690,6 +763,7 @@ def run(chk, fb, tier):
     rule_sheet_names(chk, fb, "C02.i")
     C01.rule_escape(chk, fb)
     rule_quote(chk, fb)
+    rule_quote_inverse(chk, fb)
     rule_sheet_ids(chk, fb)
     rule_fresh_names(chk, fb)
     symmetry.rule_enum_tables(chk, fb, "C02.m")
